@@ -55,6 +55,28 @@ func peekBitmap(a *alloc.Alloc) []byte {
 	return unexported(reflect.ValueOf(a).Elem().FieldByName("bitmap")).Bytes()
 }
 
+// coherenceInodes: part (a) of the coherence oracle alone — every cached inode equals the inode of
+// the logical disk.  Cheap enough to run after EVERY request (an in-place change that no
+// transaction wrote lives in the cache only until the next write, abort or eviction heals it).
+func (s *seqRun) coherenceInodes(after string) {
+	if s.dead || s.srv == nil {
+		return
+	}
+	s.waitIdle()
+	st := s.srv.VerifFsState()
+	cached := peekCache(st.Icache)
+	for inum, ip := range cached {
+		if ip.Inum != inum {
+			continue
+		}
+		disk := st.Txn.Load(st.Super.Inum2Addr(inum), common.INODESZ*8).Data
+		if !bytes.Equal(ip.Encode(), disk) {
+			s.oracle("C10", "cached-inode-differs-from-disk", fmt.Sprintf("after [%s]: inode %d: cache %v, logical disk %s", trunc(after), inum, ip, hx(disk)))
+			return
+		}
+	}
+}
+
 func (s *seqRun) coherence() {
 	if s.dead {
 		return
